@@ -238,6 +238,14 @@ def check_packaged(case):
         require(a.shape == b.shape, "packaged-shape", "packaged Riemann solution returns %s of shape %r" % (nm, a.shape))
         e = float(np.max(np.abs(a[ok] - b[ok]))) / sc if np.any(ok) else 0.0
         require(e <= 1e-8, "packaged-riemann", "packaged Riemann solution: %s differs from the independent exact solver by %.3g (relative; gamma=%g, L=%r, R=%r, t=%g)" % (nm, e, g, L, R, t))
+    # an object that has already been sampled at other times (and on another mesh) answers the same
+    pb2 = sol.riemann(model, list(L), list(R))
+    other = cases.build_mesh(dict(kind="uni", n=case["n"] + 3, length=1.0, x0=-0.25))
+    pb2.primdata(other, 0.37 * t)
+    pb2.fdata(mesh, 2.0 * t)
+    for nm, a, b in zip(("density", "velocity", "pressure"), pb2.primdata(mesh, t), (rho, u, p)):
+        require(np.array_equal(np.asarray(a, dtype=float), np.asarray(b, dtype=float), equal_nan=True), "packaged-riemann-object-reuse",
+                "packaged Riemann solution: %s at t=%g from an object already sampled at other times differs from a fresh object" % (nm, t))
     # cons data / field use the same primitives
     f = pb.fdata(mesh, t)
     q_ref = cases.cons_from_prim(dict(name="euler1d", gamma=g), [np.asarray(rho), np.asarray(u), np.asarray(p)])
@@ -247,7 +255,9 @@ def check_packaged(case):
 
 
 def strat_nozzle(tier):
-    return st.builds(lambda g, npr, ar, n: dict(gamma=g, npr=npr, ar=ar, n=n), st.sampled_from([1.3, 1.4, 1.35]), gen.f(1.02, 3.0), gen.f(1.2, 3.0), st.integers(40, 120))
+    # prior: NPR values the SAME solution object was set to before the judged one (documented use: one object, set_NPR() in a loop)
+    return st.builds(lambda g, npr, ar, n, prior: dict(gamma=g, npr=npr, ar=ar, n=n, prior=prior), st.sampled_from([1.4, 1.4, 1.4, 1.3, 1.35]), gen.f(1.02, 3.0), gen.f(1.2, 3.0), st.integers(40, 120),
+                     st.lists(gen.f(1.02, 3.0), min_size=0, max_size=2))
 
 
 def check_nozzle(case):
@@ -263,7 +273,21 @@ def check_nozzle(case):
         noz = soln.nozzle(model, sec, NPR=case["npr"])
     except Exception as e:      # third-party solver may refuse a regime
         raise Skip("aerokit nozzle solver refuses this regime: %s" % type(e).__name__)
-    rho, u, p = [np.asarray(v, dtype=float) for v in noz.primdata()]
+    rho, u, p = [np.array(v, dtype=float, copy=True) for v in noz.primdata()]
+    # the same solution from an object that was first set to other pressure ratios: set_NPR() must not depend on what the object computed before
+    prior = case.get("prior") or []
+    if prior:
+        try:
+            used = soln.nozzle(model, sec, NPR=prior[0])
+            for q in prior[1:]:
+                used.set_NPR(q)
+            used.set_NPR(case["npr"])
+            again = [np.asarray(v, dtype=float) for v in used.primdata()]
+        except Exception as e:
+            raise Skip("aerokit nozzle solver refuses a regime of the preliminary sequence: %s" % type(e).__name__)
+        for nm, a, b in zip(("density", "velocity", "pressure"), again, (rho, u, p)):
+            require(np.array_equal(a, b, equal_nan=True), "nozzle-object-reuse", "packaged nozzle solution: %s after set_NPR(%s) then set_NPR(%g) on one object differs from a fresh object at NPR %g by %.3g"
+                    % (nm, ", ".join("%g" % q for q in prior), case["npr"], case["npr"], float(np.nanmax(np.abs(a - b))) if np.any(np.isfinite(a - b)) else float("nan")))
     if not (np.all(np.isfinite(rho)) and np.all(np.isfinite(u)) and np.all(np.isfinite(p))):
         raise Skip("aerokit nozzle solution not finite for this regime")
     mach = u / np.sqrt(g * p / rho)
@@ -290,19 +314,19 @@ def check_nozzle(case):
         require(lo - 1e-6 <= got <= hi + 1e-9, "nozzle-shock-loss", "packaged nozzle solution: total pressure ratio across the shock %.6f is not a normal-shock loss for a Mach number near %.3f" % (got, m1))
     if mach[-1] < 1.0:       # with a supersonic exit the exit pressure is not the back pressure the NPR refers to
         require(abs(p[-1] * case["npr"] / pt[0] - 1) <= 1e-6, "nozzle-npr",         "packaged nozzle solution: inlet ptot / outlet p = %.6f, requested NPR %.6f" % (pt[0] / p[-1], case["npr"]))
-    return dict(nontrivial=True, labels=["gamma:%g" % g, "shock" if jump else "no-shock", "choked" if np.max(mach) >= 0.999 else "subsonic"])
+    return dict(nontrivial=True, labels=["gamma:%g" % g, "shock" if jump else "no-shock", "choked" if np.max(mach) >= 0.999 else "subsonic", "object-reused" if prior else "fresh-object"])
 
 
 def match_d17(case, failure):
     """known finding D17: packaged nozzle solution for gamma != 1.4 (aerokit's isentropic / mass-flow functions keep their gamma=1.4 default)"""
-    return failure.sub == "packaged_nozzle" and abs(case.get("gamma", 1.4) - 1.4) > 1e-12
+    return failure.sub == "packaged_nozzle" and abs(case.get("gamma", 1.4) - 1.4) > 1e-12 and failure.predicate != "nozzle-object-reuse"
 
 
 SUBCHECKS = [
     SubCheck("convection_order", check_conv, strategy=strat_conv, examples={"quick": 24, "thorough": 150}, shards={"quick": 8, "thorough": 16}),
     SubCheck("riemann_convergence", check_riemann, strategy=strat_riemann, examples={"quick": 12, "thorough": 80}, shards={"quick": 8, "thorough": 16}),
     SubCheck("packaged_riemann", check_packaged, strategy=strat_packaged, examples={"quick": 100, "thorough": 600}, shards={"quick": 2, "thorough": 8}),
-    SubCheck("packaged_nozzle", check_nozzle, strategy=strat_nozzle, examples={"quick": 40, "thorough": 300}, shards={"quick": 2, "thorough": 8}),
+    SubCheck("packaged_nozzle", check_nozzle, strategy=strat_nozzle, examples={"quick": 150, "thorough": 600}, shards={"quick": 2, "thorough": 8}),
 ]
 
 META = dict(
